@@ -165,6 +165,15 @@ m("c18.1-validate-inverted", "core/authip/authip.go", "\tif i.enable {\n\t\tif _
 m("c18.2-no-delete", "core/authip/authip.go", "\t\t\t\tIpMap.Del(kv.Key)\n", "", "C18", "C18.2")
 m("c18.3-no-write", "core/authip/authip.go", "\t\t\t\t\tcase ev.Op&fsnotify.Write == fsnotify.Write:\n\t\t\t\t\t\tfallthrough\n", "", "C18", "C18.3")
 
+# ---- coverage-extending rules
+m("c04.7-status", SS, "\t\ts.SetInitializeStatus(core.Initializing)\n", "\t\ts.SetInitializeStatus(core.Initialized)\n", "C04", "C04.7")
+m("c04.7-order", CN, "\tif c.InitializeStatus() == Initializing {\n", "\tif c.InitializeStatus() == InitializeNone {\n", "C04", "C04.7")
+m("c04.7-partial-ok", CS, "\tif (buf.TotalSize() >= int(totalStep)*codec.OK.Len()) && (strings.HasPrefix(utils.B2S(buf.PeekAll()), ShortcutOK[totalStep])) {", "\tif strings.HasPrefix(utils.B2S(buf.PeekAll()), codec.OK.String()) {", "C04", "C04.7")
+m("c08.5-buffer-len", EL, "\tc.buffer = el.buffer[:n]\n", "\tc.buffer = el.buffer[:len(el.buffer)]\n", "C08", "C08.5")
+m("c12.4-digits", "core/codec.go", "\t\tif b < '0' || b > '9' {", "\t\tif b < '+' || b > '9' {", "C12", "C12.4")
+m("c17.7-arity-lt", "core/codec/commands.go", "\t\tif int(nargs) != n {", "\t\tif int(nargs) > n {", "C17", "C17.7")
+m("c17.7-miss-get", "core/codec/commands.go", "\t\treturn checkArgs(v, n)\n\t}\n\treturn UNKNOWN\n}", "\t\treturn checkArgs(v, n)\n\t}\n\treturn ReqGet\n}", "C17", "C17.7")
+
 here = os.path.dirname(os.path.abspath(__file__))
 json.dump(M, open(os.path.join(here, "mutations.json"), "w"), indent=1)
 print(len(M), "mutations")
